@@ -348,6 +348,14 @@ func (s *Sched) Loop() {
 			return
 		}
 		s.Steps++
+		if traceHooks {
+			var desc []string
+			for name, e := range s.parked {
+				desc = append(desc, fmt.Sprintf("%s@%s/%d", name, e.point, e.need))
+			}
+			sort.Strings(desc)
+			fmt.Printf("TRACE step %d parked=%v enabled=%v live=%d readers=%d writer=%v lock=%v pending=%v\n", s.Steps, desc, enabled, s.live, s.readers, s.writerHeld, s.lockHeld, s.lockPending)
+		}
 		pick := ""
 		var window []string
 		if s.pos < len(s.replay) {
